@@ -29,5 +29,25 @@ func main() {
 		os.Exit(64)
 	}
 	vf.CollectRaces(run)
+	if p := os.Getenv("VERIF_MERGE_DUMP"); p != "" && *prop == "C16" {
+		// the part on the real channel manager (reader rig, profile C16M) ran first and dumped its Run; both parts
+		// decide the same property and share one evidence file
+		if err := run.MergePrefixed(p, "manager_"); err != nil {
+			run.Inconclusive("the manager part (reader rig) left no result: " + err.Error())
+		}
+		q := func(a, b int) int {
+			if run.Thorough() {
+				return b
+			}
+			return a
+		}
+		run.Floor("manager_cases_quiescent", q(160, 3200))
+		run.Floor("manager_pairs_assigned", q(300, 6000))
+		run.Floor("manager_cases_conflicting_pairing", q(20, 400))
+		run.Floor("manager_cases_with_waiting_handlers", q(5, 100))
+		run.Floor("manager_count_pairs", 12)
+		run.Rule += " PLUS the manager part (counters manager_*): the REAL replicateChannelManager is offered 3-10 collections (1-3 shards) through StartReadCollection for 16 channel-count pairs in three placement families (balanced / Milvus-like independent / adversarial, so that handlers wait and channels are forwarded) and three call modes (sequential / mixed / concurrent); the assignment is read back under the manager's channel lock after every call and until stable, and judged for function-ness, stability, load bound, one-to-one with equal counts, handler/pair agreement and (balanced placements only) totality."
+		run.Assumptions = append(run.Assumptions, "manager part: hook VerifChannelAssignment reads ChannelMapping.CheckKeyExist over all channel names under the manager's channel lock; judged facts are monotone, so a late snapshot can miss but not invent a violation; no data flows in this part (the forwardMsg path that offers a channel without a reservation is exercised by the C01/C02 profile)")
+	}
 	os.Exit(run.Finish(vf.Out()))
 }
